@@ -66,6 +66,7 @@ from space_packet_parser import cli as _cli  # noqa: E402
 _SEP = re.compile("[│┃|]")
 _CTR = re.compile(r"'SRC_SEQ_CTR':\s*(\d+)")
 _APID = re.compile(r"'PKT_APID':\s*(\d+)")
+_OOR = re.compile(r"out[ -]of[ -](range|bounds)|invalid (packet )?index|no such packet", re.I)
 
 
 def systematic():
@@ -281,7 +282,7 @@ def run(ch, render=False):
                 if ctrs:
                     out.fail("packet_shown_for_bad_index", f"--packet {index} with {m} packets printed counters {ctrs[:12]} "
                                                            f"({desc})", "parse|shown_for_bad_index")
-                elif "out of range" not in text:
+                elif not _OOR.search(text):
                     out.fail("no_out_of_range_message", f"--packet {index} with {m} packets printed no out-of-range "
                                                         f"message: {text[-160:]!r} ({desc})", "parse|no_message")
 
